@@ -1,4 +1,5 @@
 import CffiVerif.Model.Call
+import CffiVerif.Generated.ExternPySize
 
 /-
 Model of what happens between a C caller and a Python function installed with
@@ -79,9 +80,48 @@ def Placed (m : Mem) (p n : Nat) : Arg → Prop
   | .val b => b.length ≤ 8
   | .ref addr b => addr < 2 ^ 64 ∧ m.read addr b.length = b ∧ (addr + b.length ≤ p ∨ p + 8 * n ≤ addr)
 
-/-- `char a[size_of_a]` with `size_of_a = max(len(args)*8, 8)` (result types
-that need more enlarge it further). -/
-def bufferSize (nargs : Nat) : Nat := max (nargs * 8) 8
+/-! ### the argument / result area `char a[size_of_a]`
+
+`size_of_a` as `_extern_python_decl` computes it; the constants and the list of
+result types that enlarge it are regenerated from recompiler.py on every run
+(`Generated/ExternPySize.lean`). -/
+
+open CffiVerif.Generated in
+/-- `max(len(tp.args)*8, 8)`. -/
+def bufferSize (nargs : Nat) : Nat := max (nargs * ExternPySize.slot) ExternPySize.minArea
+
+/-- The result type as the generator sees it: `void`; a primitive (or pointer /
+enum) with the name the generator compares and its `sizeof`; a struct or union. -/
+inductive ResT where
+  | void
+  | prim (name : String) (size : Nat)
+  | aggregate (size : Nat)
+deriving DecidableEq, Repr
+
+open CffiVerif.Generated in
+/-- `size_of_a`. -/
+def sizeOfA (nargs : Nat) : ResT → Nat
+  | .void => bufferSize nargs
+  | .prim name _ =>
+      ExternPySize.wideRules.foldl (fun acc rule => if rule.1.contains name then max acc rule.2 else acc)
+        (bufferSize nargs)
+  | .aggregate sz =>
+      if ExternPySize.structRule then (if sz > bufferSize nargs then sz else bufferSize nargs)
+      else bufferSize nargs
+
+/-- Bytes the backend may write at the start of the area for the result:
+`convert_from_object` writes `sizeof(R)`; the error path copies `py_rawerr`, which has
+`max(sizeof(R), sizeof(ffi_arg))` bytes; `cffi_call_python` clears `sizeof(R)`;
+nothing for `void`. -/
+def resultWritten : ResT → Nat
+  | .void => 0
+  | .prim _ size => max size 8
+  | .aggregate size => max size 8
+
+open CffiVerif.Generated in
+/-- Is an argument of this type stored as a pointer to the caller's object? -/
+def passedByRef (name : String) (isAggregate : Bool) : Bool :=
+  isAggregate || ExternPySize.byRefPrims.contains name
 
 /-! ### result encoding (`convert_from_object_fficallback`) -/
 
@@ -208,7 +248,10 @@ def errorPath (rt : RT) (encode : Bool) (rawerr : List UInt8) (onerr : OnErr) (b
   | .returns o =>
       match encodeResult rt encode o buf1 with
       | (.ok _, buf2) => ⟨buf2, 0, false⟩
-      | (.error _, buf2) => ⟨buf2, 2, false⟩          -- conversion of onerror's result failed: printed
+      | (.error _, buf2) =>
+          -- conversion of onerror's result failed: the attempt may have clobbered the buffer
+          -- (memset of the ffi_arg), so the declared error value is copied again; both printed
+          ⟨if rt.size > 0 then setPrefix rawerr buf2 else buf2, 2, false⟩
 
 def invoke (rt : RT) (encode : Bool) (rawerr : List UInt8) (body : Body) (onerr : OnErr)
     (buf : List UInt8) : Outcome :=
